@@ -41,3 +41,47 @@ def fork_map(fn, items, nproc):
             except Exception as e:      # noqa
                 results[idx] = ("err", f"child died without result: {e!r}")
     return results
+
+
+def fork_call(fn, deadline_s):
+    """Run fn() in a forked child with a hard wall-clock limit (z3's sequence solver sometimes ignores
+    its own timeout).  Returns ("ok", value) | ("err", text) | ("killed", None)."""
+    import time, signal
+    r, w = os.pipe()
+    pid = os.fork()
+    if pid == 0:
+        os.close(r)
+        try:
+            data = pickle.dumps(("ok", fn()))
+        except BaseException as e:      # noqa
+            data = pickle.dumps(("err", "".join(traceback.format_exception(type(e), e, e.__traceback__))[-4000:]))
+        with os.fdopen(w, "wb") as f:
+            f.write(data)
+        os._exit(0)
+    os.close(w)
+    chunks = []
+    t_end = time.time() + deadline_s
+    res = None
+    while True:
+        left = t_end - time.time()
+        if left <= 0:
+            try:
+                os.kill(pid, signal.SIGKILL)
+            except OSError:
+                pass
+            res = ("killed", None)
+            break
+        ready, _, _ = select.select([r], [], [], min(left, 1.0))
+        if ready:
+            chunk = os.read(r, 1 << 20)
+            if not chunk:
+                break
+            chunks.append(chunk)
+    os.close(r)
+    os.waitpid(pid, 0)
+    if res is not None:
+        return res
+    try:
+        return pickle.loads(b"".join(chunks))
+    except Exception as e:      # noqa
+        return ("err", f"child died without result: {e!r}")
